@@ -1349,3 +1349,86 @@ func (ts *TermStore) SplitPC(a, b *Term) (common, ra, rb *Term, ok bool) {
 	}
 	return common, ra, rb, true
 }
+
+// HasQuant reports whether t contains a quantifier.
+func (ts *TermStore) HasQuant(t *Term) bool {
+	seen := map[*Term]bool{}
+	var visit func(t *Term) bool
+	visit = func(t *Term) bool {
+		if seen[t] {
+			return false
+		}
+		seen[t] = true
+		if t.Op == OpForall {
+			return true
+		}
+		for _, a := range t.Args {
+			if visit(a) {
+				return true
+			}
+		}
+		return false
+	}
+	return visit(t)
+}
+
+// Subst replaces variable v by val in t (structure is rebuilt without re-simplification).
+func (ts *TermStore) Subst(t, v, val *Term) *Term {
+	memo := map[*Term]*Term{}
+	var rec func(t *Term) *Term
+	rec = func(t *Term) *Term {
+		if t == v {
+			return val
+		}
+		if len(t.Args) == 0 {
+			return t
+		}
+		if r, ok := memo[t]; ok {
+			return r
+		}
+		changed := false
+		args := make([]*Term, len(t.Args))
+		for i, a := range t.Args {
+			args[i] = rec(a)
+			if args[i] != a {
+				changed = true
+			}
+		}
+		r := t
+		if changed {
+			r = ts.mk(&Term{Op: t.Op, Sort: t.Sort, Args: args, BV: t.BV, Name: t.Name, I: t.I, J: t.J})
+		}
+		memo[t] = r
+		return r
+	}
+	return rec(t)
+}
+
+// Instances returns the bodies of the universally quantified sub-formulas of fact that occur
+// positively at the top (through conjunctions and the right side of implications), instantiated at val.
+func (ts *TermStore) Instances(fact, val *Term) []*Term {
+	var out []*Term
+	var walk func(t *Term, guard *Term)
+	walk = func(t *Term, guard *Term) {
+		switch t.Op {
+		case OpForall:
+			if t.Args[0].Sort == val.Sort {
+				out = append(out, ts.Implies(guard, ts.Subst(t.Args[1], t.Args[0], val)))
+			}
+		case OpAnd:
+			walk(t.Args[0], guard)
+			walk(t.Args[1], guard)
+		case OpNot:
+			// not(and(a, not b)) is a ==> b
+			if in := t.Args[0]; in.Op == OpAnd {
+				if in.Args[1].Op == OpNot {
+					walk(in.Args[1].Args[0], ts.And(guard, in.Args[0]))
+				} else if in.Args[0].Op == OpNot {
+					walk(in.Args[0].Args[0], ts.And(guard, in.Args[1]))
+				}
+			}
+		}
+	}
+	walk(fact, ts.True())
+	return out
+}
